@@ -11,9 +11,9 @@ PROFILE = dict(
     nontrivial_probes=['hash_file_checks'],
     sizes=[1, 2, 3, 3, 4, 4, 5, 6, 8, 12, 16, 25],
     backends=["slurm", "slurm", "sge", "lsf", "local"],
-    weights=dict(run=3, dry_run=1, status=2, start=2, finish=2.5, purge=0.3, acct_flush=0.3, modify_source=0.3,
+    weights=dict(faulted=0.3, run=3, dry_run=1, status=2, start=2, finish=2.5, purge=0.3, acct_flush=0.3, modify_source=0.3,
                  delete_output=0.3, edit_spec=2.5, touch=1.5, clean=1.5, toggle_hashing=1, rename=0.4, remove=0.3, add=0.3,
                  reject_submit=1, advance=0.5),
-    p_job_ok=0.8, p_hashing=0.7,
+    p_job_ok=0.8, p_hashing=0.7, p_huge=0.01,
 )
 make_scenario = make({"C18"}, PROFILE, CmdScenario)
